@@ -41,7 +41,7 @@ RECURSIVE Lg2Up(_)
 Lg2Up(x) == IF x <= 1 THEN 0 ELSE 1 + Lg2Up((x + 1) \div 2)
 ZUp(w, k) == 24 + 3 * Lg2Up(w \div (2 * k) + 1)
 HeavyOK(e, k) ==
-  (k <= 2000) =>
+  (k >= 1 /\ k <= 2000) =>
     \A i \in 1..Len(e.wq) :
       LET w3 == e.wq[i][1]  a == e.wq[i][2]  b == e.wq[i][3]  z == ZUp(e.tw, k) IN
       \* a single value is always a centroid of its own. (IF, not a disjunction: inside an action TLC
@@ -54,6 +54,10 @@ TInit == l = 1 /\ cnt = <<>> /\ km = <<>>
 TrRun == IsEv("Run") /\ cnt' = <<>> /\ km' = <<>>
 
 TrNew == IsEv("DNew") /\ cnt' = Put(cnt, Ev.id, 0) /\ km' = Put(km, Ev.id, Ev.k)
+
+\* a digest decoded from an image the harness built (heavy end centroids): tw values behind it; its
+\* centroids are not bound by this library's scale function (grain 0: HeavyOK claims nothing)
+TrFrom == IsEv("DFrom") /\ cnt' = Put(cnt, Ev.id, Ev.tw) /\ km' = Put(km, Ev.id, 0)
 
 \* a batch of updates: n finite values (NaN and infinities are ignored by the digest)
 TrUpd == IsEv("DUpd") /\ cnt' = [cnt EXCEPT ![Ev.id] = @ + Ev.n] /\ UNCHANGED km
@@ -121,7 +125,7 @@ TrLoad ==
 
 TrPanic == IsEv("Panic") /\ FALSE /\ UNCHANGED <<cnt, km>>
 
-TNext == TrRun \/ TrNew \/ TrUpd \/ TrMerge \/ TrCopy \/ TrCont \/ TrChk \/ TrLoad \/ TrPanic
+TNext == TrRun \/ TrNew \/ TrFrom \/ TrUpd \/ TrMerge \/ TrCopy \/ TrCont \/ TrChk \/ TrLoad \/ TrPanic
 TSpec == TInit /\ [][TNext]_tvars
 
 Accepted ==
